@@ -85,6 +85,14 @@ NOTES.update({
  "w9-C17-m2": "missed at first: negatives were only taken with Invert(); NewInvertedLuminanceSource and LuminanceSourceInvert added",
  "w9-C18-m3": "missed at first: ITF contents were 6..14 digits, never longer than the largest default length; lengths up to 42 added",
 })
+NOTES.update({
+ "w10-C05-m1": "the change starts goroutines inside the library; C05 is single-threaded and still sees the effect (blocks left uncorrected)",
+ "w10-C05-m2": "a schedule-only change (lazy unsynchronised field tables): caught by C18 (state)",
+ "w10-C10-m1": "NOT decided: needs ONE reader object shared by several goroutines, which neither C10 (no schedule) nor C18 (own instances per goroutine) quantifies over; like w3-C11-m1",
+ "w10-C11-m2": "the change is in the Reed-Solomon decoder: missed by C11 (random damage never has this form) and by C04 at first; C04 now also sends adversarial error sets whose magnitudes make a chosen subset of the syndromes vanish (first / last / every second / random), solved over the reference field. Caught by C04 (dec/miscorrect)",
+ "w10-C17-m1": "missed at first: indexed images had opaque palettes; a palette whose entry for white is fully transparent (any colour underneath) added",
+ "w10-C18-m3": "missed at first: every call got a fresh hints map; one application-wide read-only hints map (TRY_HARDER, result-point callback, allowed extensions) shared by the 1-D operations, with upside-down pictures so that the reversed-row attempt is taken",
+})
 rows=[]
 for d in sorted(glob.glob('/verif/seeded/*/')):
     name=os.path.basename(d.rstrip('/'))
